@@ -174,15 +174,35 @@ def install(nmfu):
             else:
                 REC.ok("OptionalNode.convert")
             if self.next is None:
-                # skipping = leaving without consuming: the start state is accepting, or every byte that does not start the contents
-                # falls through (non error) to an accepting state; in the second form the trailing actions must sit on that fall-through
+                # skipping = leaving without consuming.  Either the start state is accepting (nothing has to run on the way out), or every
+                # symbol that does not begin the contents falls through (no error) to an accepting state; when actions follow the optional,
+                # they must be the last thing each of those fall-throughs does
                 st = r.starting_state
-                els = st[nmfu.DFTransition.Else] if not isinstance(st, nmfu.DFConditionPoint) else None
-                via_else = els is not None and els.is_fallthrough and not els.error_handling and els.target in r.accepting_states
-                if st not in r.accepting_states and not via_else:
-                    REC.fail("OptionalNode.convert/C01-skippable", "optional at the end of a sequence: the body cannot be skipped (start state neither accepting nor falling through to an accepting state)")
-                elif self.finish_actions and not (via_else and [a for a in els.actions] == list(self.finish_actions)):
-                    REC.fail("OptionalNode.convert/C01-skip-keeps-actions", "actions following an optional at the end of a block are not performed when the contents are skipped")
+                fa = list(self.finish_actions)
+                if st in r.accepting_states:
+                    if fa:
+                        REC.fail("OptionalNode.convert/C01-skip-keeps-actions", "actions following an optional at the end of a block are not performed when the contents are skipped")
+                elif isinstance(st, nmfu.DFConditionPoint):
+                    REC.fail("OptionalNode.convert/C01-skippable", "optional at the end of a sequence starts in a condition point that is not accepting")
+                else:
+                    tab = table(nmfu, st)
+                    nskip = 0
+                    for sym in symbols(nmfu):
+                        t = tab[sym]
+                        if t is None:
+                            REC.fail("OptionalNode.convert/C01-skippable", f"optional at the end of a sequence: no move on {symname(sym)} and the start state is not accepting")
+                            break
+                        if not t.is_fallthrough and not t.error_handling:
+                            continue            # the contents begin
+                        nskip += 1
+                        if t.error_handling or t.target not in r.accepting_states:
+                            REC.fail("OptionalNode.convert/C01-skippable", f"optional at the end of a sequence: on {symname(sym)} the contents cannot be skipped (error path / non-accepting target)")
+                            break
+                        if fa and list(t.actions)[-len(fa):] != fa:
+                            REC.fail("OptionalNode.convert/C01-skip-keeps-actions", f"actions following an optional at the end of a block are not performed when it is skipped on {symname(sym)}")
+                            break
+                    if nskip == 0:
+                        REC.fail("OptionalNode.convert/C01-skippable", "optional at the end of a sequence can never be skipped")
             return r
         return convert
     wrap(nmfu.OptionalNode, "convert", mk_optional)
